@@ -28,6 +28,18 @@ func rulesC04(c *Ctx, r *Report) {
 	rulesBedSkip(c, r)
 	rulesEntryPoints(c, r, "formats/bed")
 	rulesNoFloatToInt(c, r, "formats/bed")
+	{
+		// the refusal of a bad N is an error, not a panic: every index, slice and make of the writer side is in bounds for
+		// every record, N included (a buffer pre-sized from N before N is checked)
+		var ws []*ssa.Function
+		for _, name := range []string{"(*BED).Write", "(*BED).MarshalText"} {
+			if f := c.fn("formats/bed", name); f != nil {
+				ws = append(ws, f)
+			}
+		}
+		rulesGrdFuncs(c, r, ws, 0, "bounds goals in BED.Write and MarshalText")
+	}
+	rulesSplitters(c, r, "formats/bed", ",", "\t")
 	rulesWriterErrOrigin(c, r, "formats/bed", "(*BED).Write", bedNRange)
 	rulesNumWidth(c, r, "formats/bed")
 }
@@ -115,12 +127,8 @@ func rulesBedWriterLadder(c *Ctx, r *Report) {
 		var fmts []string
 		if fc.format != nil {
 			fmts = []string{*fc.format}
-		} else if phi, ok := fc.fmtVal.(*ssa.Phi); ok {
-			for _, e := range phi.Edges {
-				if str, ok := constStr(e); ok {
-					fmts = append(fmts, str)
-				}
-			}
+		} else if fs, ok := constFormats(fc.fmtVal, 0); ok {
+			fmts = fs
 			sort.Strings(fmts)
 		}
 		if len(fmts) == 0 {
@@ -316,6 +324,42 @@ func rulesBedParserColumns(c *Ctx, r *Report) {
 				var oth []string
 				columnsOf(x.Val, padded, map[ssa.Value]bool{}, cols[field], &oth)
 				others[field] = append(others[field], oth...)
+			case *ssa.Call:
+				// the field's address handed to a helper of the package that parses into it: parseInto(fields[k], &bed.X)
+				g := x.Call.StaticCallee()
+				if g == nil || g.Blocks == nil || g.Pkg != f.Pkg || len(g.Params) != len(x.Call.Args) || field == 0 {
+					continue
+				}
+				pj := -1
+				for i, a := range x.Call.Args {
+					if a == addr {
+						pj = i
+					}
+				}
+				if pj < 0 {
+					continue
+				}
+				stores := 0
+				instrs(g, func(in ssa.Instruction) {
+					if st, ok := in.(*ssa.Store); ok && st.Addr == ssa.Value(g.Params[pj]) {
+						stores++
+					}
+				})
+				if stores == 0 {
+					continue
+				}
+				if cols[field] == nil {
+					cols[field] = map[int64]bool{}
+				}
+				storeBlocks[field] = append(storeBlocks[field], x.Block())
+				for i, a := range x.Call.Args {
+					if i == pj {
+						continue
+					}
+					var oth []string
+					columnsOf(a, padded, map[ssa.Value]bool{}, cols[field], &oth)
+					others[field] = append(others[field], oth...)
+				}
 			case *ssa.IndexAddr:
 				walkAddr(x, field)
 			case *ssa.UnOp: // load of a slice field, then element stores through it
@@ -437,7 +481,7 @@ func rulesBedParserColumns(c *Ctx, r *Report) {
 			"of the representative values -1, 0, 1, 127, 128, 254, 255, 256 exactly those in 0..255 reach the store: every byte value is accepted, nothing else",
 			fmt.Sprintf("the values that reach the store into ItemRGB are %v of the representatives -1..256, want exactly 0..255: some component values the writer prints are rejected, or out-of-range values are truncated", got))
 	})
-	r.floor("G4b-guard", nGuards, 4, "optional numeric/list fields whose parse is guarded by a non-empty test")
+	r.floor("G4b-guard", nGuards, 2, "optional numeric/list fields whose parse is guarded by a non-empty test")
 	// accepting return only with 3..12 fields
 	isLen := func(v ssa.Value) bool { return s.expr(v).String() == "builtin:len(P0)" }
 	in := partitionFlow(f, isLen, []int64{0, 1, 2, 3, 4, 5, 6, 7, 8, 9, 10, 11, 12, 13, 14})
